@@ -40,7 +40,15 @@ type Responder struct {
 }
 
 func NewResponder(dgrams [][]byte, delay time.Duration, flood bool) (*Responder, error) {
-	conn, err := net.ListenUDP("udp4", &net.UDPAddr{IP: net.IPv4(127, 0, 0, 1), Port: 0})
+	return NewResponderAt(0, dgrams, delay, flood)
+}
+
+// NewResponderAt binds the responder to a given loopback port (0: any free port); when that port is taken, to any free port.
+func NewResponderAt(port int, dgrams [][]byte, delay time.Duration, flood bool) (*Responder, error) {
+	conn, err := net.ListenUDP("udp4", &net.UDPAddr{IP: net.IPv4(127, 0, 0, 1), Port: port})
+	if err != nil && port != 0 {
+		conn, err = net.ListenUDP("udp4", &net.UDPAddr{IP: net.IPv4(127, 0, 0, 1), Port: 0})
+	}
 	if err != nil {
 		return nil, err
 	}
